@@ -78,6 +78,12 @@ class World:
             return lambda: sio.emit('tok1', {'n': 1}, to=ROOM, namespace=NS)
         if name == 'emit2':
             return lambda: sio.emit('tok2', {'n': 2}, to=ROOM, namespace=NS)
+        if name == 'emit_bin':
+            return lambda: sio.emit('tok1', {'n': 1, 'b': [b'one', b'two']},
+                                    to=ROOM, namespace=NS)
+        if name == 'emit_bin2':
+            return lambda: sio.emit('tok2', {'n': 2, 'b': b'three'},
+                                    to=ROOM, namespace=NS)
         if name == 'leave':
             return lambda: sio.leave_room(self.sids[1], ROOM, namespace=NS)
         if name == 'sdisc':
@@ -122,17 +128,20 @@ def run_schedule(ctx, racers, choices, rng, bound=None):
     sched = SC.ThreadScheduler(choices=choices, rng=rng,
                                preemption_bound=bound, switch_prob=sp)
     w = World(sched)
-    sched.spawn('emit', w.actor('emit'))
+    binary = 'emit_bin2' in racers
+    sched.spawn('emit', w.actor('emit_bin' if binary else 'emit'))
     for r in racers:
         sched.spawn(r, w.actor(r))
     trace = sched.run()
     ctx.count('emit_race_schedules')
     got = []
+    undecodable = []
     for i, t in enumerate(w.T):
         t.drain()
+        undecodable += [(i, e) for e in t.decode_errors]
         got.append(collections.Counter(
             p['data'][0] for p in t.packets
-            if p['type'] == R.EVENT and p['data'] and
+            if p['type'] in (R.EVENT, R.BINARY_EVENT) and p['data'] and
             str(p['data'][0]).startswith('tok')))
     wit = {'part': 'emit_race', 'racers': racers,
            'choices': [c for _, c in trace],
@@ -143,6 +152,20 @@ def run_schedule(ctx, racers, choices, rng, bound=None):
         ctx.violation(None, 'emit race: schedule did not complete: %s' %
                       sched.aborted, wit)
         return trace, 'aborted'
+    if undecodable:
+        # the frames of two multi-frame (binary) packets sent by different
+        # threads to one client are interleaved: the client cannot attribute
+        # the attachments
+        wit['undecodable'] = [[i, e[0][:80], e[1][:120]]
+                              for i, e in undecodable[:4]]
+        ctx.count('interleaved_frame_streams')
+        ctx.violation('concurrent-multi-frame-sends-interleave'
+                      if binary else None,
+                      'two threads emitting to the same client at the same '
+                      'time: the frame stream of client %d cannot be decoded '
+                      '(frames of the two packets are interleaved)' %
+                      undecodable[0][0], wit)
+        return trace, 'undecodable'
     errs = list(sched.errors) + w.d.errors()
     if errs:
         wit['errors'] = [{'actor': e.get('actor'), 'exc': e.get('exc'),
@@ -152,8 +175,15 @@ def run_schedule(ctx, racers, choices, rng, bound=None):
             '+'.join(racers), errs[0].get('exc'),
             errs[0].get('actor') or 'the server'), wit)
         return trace, 'exception'
+    # did the sends of the two emitters interleave at all?
+    runs = []
+    for actor, lbl in sched.labels:
+        if lbl == 'eio.send_packet' and (not runs or runs[-1] != actor):
+            runs.append(actor)
+    mixed_key = 'concurrent-multi-frame-sends-interleave' \
+        if binary and len(runs) > 2 else None
     ch = touched(racers)
-    toks = ['tok1'] + (['tok2'] if 'emit2' in racers else [])
+    toks = ['tok1'] + (['tok2'] if 'emit2' in racers or binary else [])
     for tok in toks:
         for i in range(4):
             n = got[i][tok]
@@ -162,13 +192,13 @@ def run_schedule(ctx, racers, choices, rng, bound=None):
                 want = 1 if member0 else 0
                 if n != want:
                     ctx.violation(
-                        None, 'emit(room) racing with %s: client %d (%s, '
+                        mixed_key, 'emit(room) racing with %s: client %d (%s, '
                         'untouched by the race) received the event %d times'
                         % ('+'.join(racers), i,
                            'member' if member0 else 'not a member', n), wit)
                     return trace, 'count'
             elif n > 1:
-                ctx.violation(None, 'emit(room) racing with %s: client %d '
+                ctx.violation(mixed_key, 'emit(room) racing with %s: client %d '
                               'received the event %d times' % (
                                   '+'.join(racers), i, n), wit)
                 return trace, 'duplicate'
@@ -274,8 +304,9 @@ def explore_self(ctx, racers, limit):
 def run_part(ctx, seconds):
     import time
     t_end = time.time() + seconds
-    jobs = [[r] for r in RACERS] + [list(p) for p in itertools.combinations(
-        ['leave', 'sdisc', 'lose', 'enter'], 2)]
+    jobs = [[r] for r in RACERS] + [['emit_bin2']] + [
+        list(p) for p in itertools.combinations(
+            ['leave', 'sdisc', 'lose', 'enter'], 2)]
     summary = ctx.extra.setdefault('emit_race_scenarios', {})
     limit = 150 if ctx.tier == 'quick' else 5000
     k = 0
